@@ -17,6 +17,7 @@ import EPV.Lemmas.PrattDerive
 import EPV.Lemmas.PrattComplete
 import EPV.Lemmas.PrattFuel
 import EPV.Lemmas.PrattEbnf
+import EPV.Lemmas.PrattEbnfComplete
 import EPV.Lemmas.PrattSource
 namespace EPV.C04
 open EPV.Syn EPV.Pratt
@@ -186,5 +187,23 @@ theorem source_text_roundtrip (T : Tbl) (X : TextTbl) (toks : List Tok) (t : Tre
       parse T t.yield = .ok t := by
   refine ⟨?_, parse_yield_idem T toks t h⟩
   rw [lex_render X t hc _ (Nat.le_refl _), pratt_yield T toks t h]
+
+/-- **completeness of the reference parser** (`ebnf_complete`): every EBNF derivation from the start symbol is
+returned by the executable reference parser on its own tokens — for every level list that does not use `(` as a
+prefix operator.  With `ebnf_sound`: the reference parser *decides* whether a token list has a derivation. -/
+theorem ebnf_complete (levels : List Level) (ep : Bool) (syms : List String)
+    (hp : findLevel true "(" levels 0 = none) (t : Tree)
+    (hd : derivable (gramOf levels ep syms) 0 t = true) :
+    ebnfParse (gramOf levels ep syms) t.yield = some t :=
+  ebnfParse_complete (gramOf_ok levels ep syms) (gramOf_okc levels ep syms hp) t hd
+
+/-- hence: when the reference parser rejects a token list, no EBNF derivation has these tokens -/
+theorem ebnf_reject_no_derivation (levels : List Level) (ep : Bool) (syms : List String)
+    (hp : findLevel true "(" levels 0 = none) (toks : List Tok)
+    (h : ebnfParse (gramOf levels ep syms) toks = none) :
+    ¬ ∃ t, derivable (gramOf levels ep syms) 0 t = true ∧ t.yield = toks := by
+  rintro ⟨t, hd, rfl⟩
+  rw [ebnf_complete levels ep syms hp t hd] at h
+  simp at h
 
 end EPV.C04
